@@ -4,6 +4,7 @@ import (
 	"fmt"
 	"sort"
 	"strings"
+	"time"
 	"unicode/utf8"
 
 	"verif/mc/ev"
@@ -384,6 +385,7 @@ func runPartA(r *ev.Run) {
 			}
 		}
 	}
+	runPartA2(r, a)
 	r.Extra["a_label_sets"] = a.sets
 	r.Extra["a_names"] = names
 	vq := make([]string, len(values))
@@ -436,4 +438,146 @@ func runPartA(r *ev.Run) {
 	sort.Strings(keys)
 	r.Extra["a_bernstein32_observation"] = map[string]any{"label_sets": len(sets), "distinct_fingerprints": len(bern), "collisions": coll, "examples": ex,
 		"note": "FingerPrintType=Bernstein (non-default) hashes to 32 bits; collisions are reported, not judged"}
+}
+
+// ---------------------------------------------------------------------------------------------------------
+// part a2 — "every sample's series is indexed" at the parser, for requests that say one series more than once or
+// over more than one day: through every protocol, with a cache that has seen nothing, every (fingerprint, UTC day)
+// of an emitted sample row must come with a series row (fingerprint, that day) in the same request.
+
+type replayA2 struct {
+	Part    string  `json:"part"`
+	Speaker string  `json:"speaker"`
+	Streams [][]int `json:"streams"`           // per stream: label set index (0 or 1) followed by the instant indexes of its entries
+	Split   []int   `json:"split,omitempty"`   // [n, k]: one series with n entries, entry k is the first of the next day
+	Reorder bool    `json:"reorder,omitempty"` // second occurrence of a label set is written in the other label order
+}
+
+var a2Instants = []int64{
+	1704888000, // D      2024-01-10T12:00:00Z
+	1704931199, // UM-1   2024-01-10T23:59:59Z
+	1704931201, // UM+1   2024-01-11T00:00:01Z
+	1704974400, // D+1    2024-01-11T12:00:00Z
+}
+
+func a2Labels(sp *speaker, which int, reorder bool) []ir.Label {
+	l := append([]ir.Label{}, sp.Deco...)
+	l = append(l, ir.Label{Name: sp.MapName("a"), Value: []string{"x", "y"}[which]}, ir.Label{Name: sp.MapName("b_1"), Value: "z"})
+	if reorder {
+		for i, j := 0, len(l)-1; i < j; i, j = i+1, j-1 {
+			l[i], l[j] = l[j], l[i]
+		}
+	}
+	return l
+}
+
+func a2Build(sp *speaker, rp replayA2) []ir.Stream {
+	mk := func(sec int64, i int) ir.Entry {
+		if strings.Contains(sp.P.Kinds, "l") {
+			return ir.Entry{TsNs: sec * 1e9, Line: fmt.Sprintf("l%d", i), Type: ir.TypeLog}
+		}
+		return ir.Entry{TsNs: sec * 1e9, Value: float64(i), Type: ir.TypeMetric}
+	}
+	var streams []ir.Stream
+	if len(rp.Split) == 2 {
+		n, k := rp.Split[0], rp.Split[1]
+		st := ir.Stream{Labels: a2Labels(sp, 0, false)}
+		for i := 0; i < n; i++ { // one entry per second, entry k is the first after UTC midnight
+			st.Entries = append(st.Entries, mk(1704931200+int64(i-k), i))
+		}
+		return []ir.Stream{st}
+	}
+	seen := map[int]int{}
+	for _, s := range rp.Streams {
+		st := ir.Stream{Labels: a2Labels(sp, s[0], rp.Reorder && seen[s[0]]%2 == 1)}
+		seen[s[0]]++
+		for i, ii := range s[1:] {
+			st.Entries = append(st.Entries, mk(a2Instants[ii], i))
+		}
+		streams = append(streams, st)
+	}
+	return streams
+}
+
+func (a *partA) evalA2(sp *speaker, rp replayA2) {
+	streams := a2Build(sp, rp)
+	body, err := sp.P.Render(streams, sp.Opt)
+	if err != nil {
+		a.inexpr["a2:"+sp.Name]++
+		return
+	}
+	out := sp.P.Parse(body, sp.Opt, nil)
+	if out.Err != nil {
+		a.rejected[fmt.Sprintf("a2 %s %d", sp.Name, out.Status)]++
+		return
+	}
+	a.count["a2:"+sp.Name]++
+	a.r.AddEval(1)
+	type fd struct {
+		fp  uint64
+		day int64
+	}
+	have := map[fd]bool{}
+	for _, c := range out.Chunks {
+		if c.Ts == nil {
+			continue
+		}
+		for i, f := range c.Ts.MFingerprint {
+			if i < len(c.Ts.MDate) {
+				have[fd{f, c.Ts.MDate[i].Unix() / 86400}] = true
+			}
+		}
+	}
+	for _, r := range out.Rows() {
+		if !have[fd{r.FP, r.TsNs / 1e9 / 86400}] {
+			a.found["no_series_row_for_sample_day:"+sp.Name]++
+			if a.found["no_series_row_for_sample_day:"+sp.Name] <= 2 {
+				a.r.Violate("no_series_row_for_sample_day:"+sp.Name, fmt.Sprintf("%s: sample fp=%d at %s has no series row for that day in the same request (cache empty); request %+v",
+					sp.Name, r.FP, time.Unix(0, r.TsNs).UTC().Format(time.RFC3339), rp), rp)
+			}
+			a.r.Outcome("a2:missing_series_row")
+			return
+		}
+	}
+	a.r.Outcome("a2:indexed")
+}
+
+func runPartA2(r *ev.Run, a *partA) {
+	var lists [][]int
+	for i := range a2Instants {
+		lists = append(lists, []int{i})
+	}
+	for i := range a2Instants {
+		for j := range a2Instants {
+			lists = append(lists, []int{i, j})
+		}
+	}
+	for si := range speakers {
+		sp := &speakers[si]
+		if strings.HasPrefix(sp.Name, "loki_json~") || sp.Name == "loki_json_with_ttl_label" {
+			continue
+		}
+		for _, l1 := range lists {
+			a.evalA2(sp, replayA2{Part: "a2", Speaker: sp.Name, Streams: [][]int{append([]int{0}, l1...)}})
+			for _, l2 := range lists {
+				for _, second := range []int{0, 1} {
+					for _, ro := range []bool{false, true} {
+						if ro && second == 1 {
+							continue
+						}
+						a.evalA2(sp, replayA2{Part: "a2", Speaker: sp.Name, Reorder: ro,
+							Streams: [][]int{append([]int{0}, l1...), append([]int{second}, l2...)}})
+					}
+				}
+			}
+		}
+		// one series longer than the 1000-point flush of remote-write, midnight falling before / at / after the flush
+		for _, n := range []int{999, 1000, 1001, 1500, 2500} {
+			for _, k := range []int{1, 500, 999, 1000, 1001, 1200, 2100} {
+				if k < n {
+					a.evalA2(sp, replayA2{Part: "a2", Speaker: sp.Name, Split: []int{n, k}})
+				}
+			}
+		}
+	}
 }
